@@ -9,6 +9,9 @@ claimed = {
  "C04": ("proof", "Theorems (Coq, unbounded): a fault of any kind at any request leaves the stored replica unchanged; nothing is visible before the final commit; the replica invariant holds after any number of faults; self_cancel (a replica pulling its own accepted batch consumes exactly it and applies nothing); after faults no sync gets stuck and replicas converge to the chain replay. Tied to /repo by injecting the three fault kinds at generated points of real syncs and comparing stored state and the whole retry with the model.",
          "As C01. Storage calls inside the sync act on the transaction's private copy (in-memory storage here); SQLite's rollback on drop is covered by C06.",
          "Coq proof (fault events in the history semantics) + fault-injection correspondence", "7 C04"),
+ "C03": ("proof", "Theorems (Coq, unbounded): the complete conflict table of transform on operations valid in a common state (an operation is dropped iff the other has the same effect or beats it by the documented rules); list-level kept-or-documented; rebase only drops; symmetry of transform and of the whole transformation grid; order independence for two replicas with arbitrary concurrent valid lists; causal override regardless of timestamps. The three-replica statement is kept visible but is not proved; it is exercised exhaustively per generated scenario (all six orders). Tied to /repo by executing every permutation of the sync order of generated conflict scenarios on real replicas and in the model, with a direct oracle for order independence and documented winners.",
+         "As C01. order_independent_3 is tested, not proved. Strings are interned order-preservingly so the (timestamp, value) tie-break is the byte-wise string order the code uses.",
+         "Coq proof (conflict table, grid symmetry) + all-sync-orders correspondence", "7 C03"),
 }
 checks=[]
 for pid,(cat,text,note,tech,ref) in claimed.items():
